@@ -14,3 +14,109 @@ package keyproof
 //@   ensures[C16] complete: val(Pprime) > 0 && val(Qprime) > 0 && rem(val(Pprime), 2) == 1 && rem(val(Qprime), 2) == 1 && isprime(2 * val(Pprime) + 1) && isprime(val(Pprime)) && isprime(2 * val(Qprime) + 1) && isprime(val(Qprime)) && rem(val(Pprime), 8) != 1 && rem(val(Qprime), 8) != 1 && rem(2 * val(Pprime) + 1, 8) != rem(2 * val(Qprime) + 1, 8) ==> result
 //@   modifies nothing
 //@   mustfail canary: !result
+
+//@ # ---- verifiers of the Gennaro-Micciancio-Rabin component proofs (C17): every round is checked against the challenge derived for it ----
+//@ pred roundc(N, challenge, index, i) := rem(hashnumber(1, val(challenge), 1, val(index), i, bitlen(val(N))), val(N))
+//@ func squareFreeVerifyProof
+//@   property C17
+//@   safety
+//@   requires N != nil && val(N) > 0 && bitlen(val(N)) <= 1048576 && challenge != nil && index != nil && forall i in 0..len(proof.Responses) :: proof.Responses[i] != nil
+//@   ensures[C17] rounds: result ==> len(proof.Responses) == squareFreeIters && forall i in 0..squareFreeIters :: pow(val(proof.Responses[i]), val(N), val(N)) == roundc(N, challenge, index, i)
+//@   modifies nothing
+//@   loop 0 invariant 0 <= $i && $i < squareFreeIters && len(proof.Responses) == squareFreeIters && forall j in 0..$i :: pow(val(proof.Responses[j]), val(N), val(N)) == roundc(N, challenge, index, j)
+//@   loop 0 modifies onlyfresh("BV")
+//@   mustfail canary: !result
+
+//@ func squareFreeVerifyStructure
+//@   property C17
+//@   safety
+//@   ensures ok: result ==> len(proof.Responses) == squareFreeIters && forall i in 0..len(proof.Responses) :: proof.Responses[i] != nil
+//@   modifies nothing
+//@   loop 0 invariant 0 <= $i && $i <= len(proof.Responses) && forall j in 0..$i :: proof.Responses[j] != nil
+
+//@ func disjointPrimeProductVerifyStructure
+//@   property C17
+//@   safety
+//@   ensures ok: result ==> len(proof.Responses) == disjointPrimeProductIters && forall i in 0..len(proof.Responses) :: proof.Responses[i] != nil
+//@   modifies nothing
+//@   loop 0 invariant 0 <= $i && $i <= len(proof.Responses) && forall j in 0..$i :: proof.Responses[j] != nil
+
+//@ func primePowerProductVerifyStructure
+//@   property C17
+//@   safety
+//@   ensures ok: result ==> len(proof.Responses) == primePowerProductIters && forall i in 0..len(proof.Responses) :: proof.Responses[i] != nil
+//@   modifies nothing
+//@   loop 0 invariant 0 <= $i && $i <= len(proof.Responses) && forall j in 0..$i :: proof.Responses[j] != nil
+
+//@ func almostSafePrimeProductVerifyStructure
+//@   property C17
+//@   safety
+//@   ensures ok: result ==> proof.Nonce != nil && len(proof.Commitments) == almostSafePrimeProductIters && len(proof.Responses) == almostSafePrimeProductIters && (forall i in 0..len(proof.Commitments) :: proof.Commitments[i] != nil) && forall i in 0..len(proof.Responses) :: proof.Responses[i] != nil
+//@   modifies nothing
+//@   loop 0 invariant 0 <= $i && $i <= len(proof.Commitments) && forall j in 0..$i :: proof.Commitments[j] != nil
+//@   loop 1 invariant 0 <= $i && $i <= len(proof.Responses) && (forall j in 0..len(proof.Commitments) :: proof.Commitments[j] != nil) && forall j in 0..$i :: proof.Responses[j] != nil
+
+//@ # the exponent of the disjoint-prime-product test is the odd part of N-1
+//@ declare oddpart/1
+//@ axiom oddpart_even(x): x > 0 ==> oddpart(2 * x) == oddpart(x)
+//@ axiom oddpart_odd(x): x > 0 && rem(x, 2) == 1 ==> oddpart(x) == x
+//@ func disjointPrimeProductVerifyProof
+//@   property C17
+//@   safety
+//@   uses oddpart_even
+//@   uses oddpart_odd
+//@   requires N != nil && val(N) > 1 && bitlen(val(N)) <= 1048576 && challenge != nil && index != nil && len(proof.Responses) == disjointPrimeProductIters && forall i in 0..len(proof.Responses) :: proof.Responses[i] != nil
+//@   assume disjointPrimeProductIters == squareFreeIters
+//@   ensures[C17] rounds: result ==> !isprime(val(N)) && forall i in 0..squareFreeIters :: pow(val(proof.Responses[i]), oddpart(val(N) - 1), val(N)) == roundc(N, challenge, index, i)
+//@   modifies nothing
+//@   loop 0 invariant oddN != nil && fresh(oddN) && val(oddN) > 0 && oddpart(val(oddN)) == oddpart(val(N) - 1)
+//@   loop 0 modifies onlyfresh("BV")
+//@   loop 1 invariant 0 <= $i && $i < squareFreeIters && oddN != nil && val(oddN) == oddpart(val(N) - 1) && val(oddN) > 0 && forall j in 0..$i :: pow(val(proof.Responses[j]), oddpart(val(N) - 1), val(N)) == roundc(N, challenge, index, j)
+//@   loop 1 modifies onlyfresh("BV")
+//@   mustfail canary: !result
+
+//@ func primePowerProductVerifyProof
+//@   property C17
+//@   safety
+//@   requires N != nil && val(N) > 1 && bitlen(val(N)) <= 1048576 && challenge != nil && index != nil && len(proof.Responses) == primePowerProductIters && forall i in 0..len(proof.Responses) :: proof.Responses[i] != nil
+//@   ensures[C17] rounds: result ==> forall i in 0..primePowerProductIters :: pow(val(proof.Responses[i]), 2, val(N)) == roundc(N, challenge, index, i) || pow(val(proof.Responses[i]), 2, val(N)) == rem(0 - roundc(N, challenge, index, i), val(N)) || pow(val(proof.Responses[i]), 2, val(N)) == rem(2 * roundc(N, challenge, index, i), val(N)) || pow(val(proof.Responses[i]), 2, val(N)) == rem(0 - 2 * roundc(N, challenge, index, i), val(N))
+//@   modifies nothing
+//@   loop 0 invariant 0 <= $i && $i < primePowerProductIters && forall j in 0..$i :: pow(val(proof.Responses[j]), 2, val(N)) == roundc(N, challenge, index, j) || pow(val(proof.Responses[j]), 2, val(N)) == rem(0 - roundc(N, challenge, index, j), val(N)) || pow(val(proof.Responses[j]), 2, val(N)) == rem(2 * roundc(N, challenge, index, j), val(N)) || pow(val(proof.Responses[j]), 2, val(N)) == rem(0 - 2 * roundc(N, challenge, index, j), val(N))
+//@   loop 0 modifies onlyfresh("BV")
+//@   mustfail canary: !result
+
+//@ # almost-safe-prime-product test, round i: with base = H(nonce, i) mod N, x = H(challenge, index, i), y = commitment_i * base^x, gamma = 2^bitlen(N)
+//@ # and t1 = ((base^gamma)^r)^r, one of t1, t1^-1, t1^2, t1^-2 equals y^gamma (all modulo N), and t1 is invertible
+//@ pred asbase(N, proof, i) := rem(hashnumber(1, val(proof.Nonce), 0, 0, i, bitlen(val(N))), val(N))
+//@ pred asyg(N, challenge, index, proof, i) := pow(rem(prod(val(proof.Commitments[i]), pow(asbase(N, proof, i), hashnumber(1, val(challenge), 1, val(index), i, 2 * bitlen(val(N))), val(N))), val(N)), pow2(bitlen(val(N))), val(N))
+//@ pred ast1(N, proof, i) := pow(pow(pow(asbase(N, proof, i), pow2(bitlen(val(N))), val(N)), val(proof.Responses[i]), val(N)), val(proof.Responses[i]), val(N))
+//@ pred asround(N, challenge, index, proof, i) := hasinv(ast1(N, proof, i), val(N)) && (ast1(N, proof, i) == asyg(N, challenge, index, proof, i) || inv(ast1(N, proof, i), val(N)) == asyg(N, challenge, index, proof, i) || pow(ast1(N, proof, i), 2, val(N)) == asyg(N, challenge, index, proof, i) || inv(pow(ast1(N, proof, i), 2, val(N)), val(N)) == asyg(N, challenge, index, proof, i))
+//@ func almostSafePrimeProductVerifyProof
+//@   property C17
+//@   safety
+//@   requires N != nil && val(N) > 1 && bitlen(val(N)) <= 524288 && challenge != nil && index != nil && proof.Nonce != nil && len(proof.Commitments) == almostSafePrimeProductIters && len(proof.Responses) == almostSafePrimeProductIters
+//@   requires (forall i in 0..len(proof.Commitments) :: proof.Commitments[i] != nil) && forall i in 0..len(proof.Responses) :: proof.Responses[i] != nil && val(proof.Responses[i]) >= 0
+//@   ensures[C17] rounds: result ==> rem(val(N), 3) == 1 && forall i in 0..almostSafePrimeProductIters :: asround(N, challenge, index, proof, i)
+//@   modifies nothing
+//@   loop 0 invariant 0 <= $i && $i < almostSafePrimeProductIters && gamma != nil && val(gamma) == pow2(bitlen(val(N))) && rem(val(N), 3) == 1 && forall j in 0..$i :: asround(N, challenge, index, proof, j)
+//@   loop 0 modifies onlyfresh("BV")
+//@   mustfail canary: !result
+
+//@ func quasiSafePrimeProductVerifyStructure
+//@   property C17
+//@   safety
+//@   ensures ok: result ==> len(proof.SFproof.Responses) == squareFreeIters && len(proof.PPPproof.Responses) == primePowerProductIters && len(proof.DPPproof.Responses) == disjointPrimeProductIters && len(proof.ASPPproof.Responses) == almostSafePrimeProductIters && len(proof.ASPPproof.Commitments) == almostSafePrimeProductIters && proof.ASPPproof.Nonce != nil
+//@   modifies nothing
+
+//@ # the gate of the key proof: N = 5 (mod 8), no factor below 1024, and all four component proofs accepted
+//@ func quasiSafePrimeProductVerifyProof
+//@   property C17
+//@   safety
+//@   requires N != nil && val(N) > 1 && bitlen(val(N)) <= 524288 && challenge != nil
+//@   requires len(proof.SFproof.Responses) == squareFreeIters && len(proof.PPPproof.Responses) == primePowerProductIters && len(proof.DPPproof.Responses) == disjointPrimeProductIters && len(proof.ASPPproof.Responses) == almostSafePrimeProductIters && len(proof.ASPPproof.Commitments) == almostSafePrimeProductIters && proof.ASPPproof.Nonce != nil
+//@   requires (forall i in 0..len(proof.SFproof.Responses) :: proof.SFproof.Responses[i] != nil) && (forall i in 0..len(proof.PPPproof.Responses) :: proof.PPPproof.Responses[i] != nil) && (forall i in 0..len(proof.DPPproof.Responses) :: proof.DPPproof.Responses[i] != nil) && (forall i in 0..len(proof.ASPPproof.Commitments) :: proof.ASPPproof.Commitments[i] != nil) && forall i in 0..len(proof.ASPPproof.Responses) :: proof.ASPPproof.Responses[i] != nil && val(proof.ASPPproof.Responses[i]) >= 0
+//@   ensures[C17] gate: result ==> rem(val(N), 8) == 5 && rem(val(N), 3) == 1 && !isprime(val(N)) && forall f in 2..minimumFactor :: gcd(val(N), f) == 1
+//@   modifies nothing
+//@   loop 0 invariant 2 <= i && i <= minimumFactor && rem(val(N), 8) == 5 && forall f in 2..i :: gcd(val(N), f) == 1
+//@   loop 0 modifies onlyfresh("BV")
+//@   mustfail canary: !result
